@@ -2,6 +2,7 @@
 """C15 Introspection reports exactly the schema."""
 import asyncio
 import collections
+import json
 
 from ..gen import schemair as S
 from ..gen.schemair import EnumLit
@@ -425,6 +426,22 @@ def run(ctx):
                     baseline = res.data.get(ordinary)
                 elif res.data.get(ordinary) != baseline:
                     ctx.violation("ordinary-field-disturbed", witness, "")
+        # a name the schema does not have: `__type` is nullable, the answer is null and nothing else is disturbed
+        for missing in rng.sample(["NoSuchType", "query", ir.query.lower(), "__Nope", "Int!", "", "[Int]"], 2):
+            text = '{ __type(name: %s) { name kind } tn: __typename }' % json.dumps(missing)
+            config = rng.choice(["blocking", "generic", "threadpool", "asyncio"])
+            witness = {"schema_sdl": case.sdl, "config": config, "query": text}
+            if missing in ir.types:
+                continue
+            ctx.evaluated()
+            ctx.count("lookups_of_unknown_type_names")
+            try:
+                res = issue(config, case.schema, text, root)
+            except Exception as e:
+                ctx.violation("unknown-type-lookup:" + raises_key(e), witness, repr(e)[:300])
+                continue
+            if res.errors or not isinstance(res.data, dict) or res.data.get("__type", 0) is not None:
+                ctx.violation("unknown-type-lookup:not-null", witness, repr(res.response())[:300])
         # disabled introspection
         aliased = '{ api: __schema { types { name } } t: __type(name: "%s") { name } tn: __typename %s }' % (ir.query, ordinary)
         reserved_alias = "{ __plain: %s }" % ordinary
